@@ -70,3 +70,7 @@ package state
 //@   ensures err != nil ==> has(gmap("vis", self), str(key)) == old(has(gmap("vis", self), str(key))) && gmap("vis", self)[str(key)] == old(gmap("vis", self)[str(key)])
 //@   ensures forall q string :: q != str(key) ==> has(gmap("vis", self), q) == old(has(gmap("vis", self), q)) && gmap("vis", self)[q] == old(gmap("vis", self)[q])
 //@   ensures stok(self) ==> err == nil
+
+//@ func Keys.ChunkSizes
+//@   trusted
+//@   noframe
